@@ -304,7 +304,7 @@ func evalContainers(c *runner.Ctx, fs, other []fieldSpec, msgMode bool) {
 	sl.Index(1).Set(p2.Elem())
 	mv := reflect.MakeMap(reflect.MapOf(reflect.TypeOf(""), st))
 	mv.SetMapIndex(reflect.ValueOf("a"), p1.Elem())
-	mv.SetMapIndex(reflect.ValueOf("b"), p2.Elem())
+	mv.SetMapIndex(reflect.ValueOf("50%d"), p2.Elem()) // (a key that reads like a format verb is still just a key)
 	mp := reflect.MakeMap(reflect.MapOf(reflect.TypeOf(0), reflect.PtrTo(st)))
 	mp.SetMapIndex(reflect.ValueOf(1), p2)
 	mp.SetMapIndex(reflect.ValueOf(2), p1)
@@ -330,7 +330,7 @@ func evalContainers(c *runner.Ctx, fs, other []fieldSpec, msgMode bool) {
 	lpp.Index(1).Set(pp(p1))
 	parent.Elem().Field(4).Set(lpp)
 	mpp := reflect.MakeMap(parent.Elem().Field(5).Type())
-	mpp.SetMapIndex(reflect.ValueOf("k"), pp(p1))
+	mpp.SetMapIndex(reflect.ValueOf("k%v 100%"), pp(p1))
 	parent.Elem().Field(5).Set(mpp)
 	for _, in := range []struct {
 		place string
